@@ -6,3 +6,7 @@ import PyIkev2.Props.C09
 #print axioms PyIkev2.Props.C09.c09_generators_in_asserted_states
 #print axioms PyIkev2.Props.C09.c09_escape_only_from_generator
 #print axioms PyIkev2.Props.C09.c09_process_message_total
+#print axioms PyIkev2.Props.C09.c09_concrete_ike_rekey_while_busy
+#print axioms PyIkev2.Props.C09.c09_concrete_child_request_while_ike_sa_in_transition
+#print axioms PyIkev2.Props.C09.c09_concrete_rekey_of_unknown_child
+#print axioms PyIkev2.Props.C09.c09_concrete_rekey_crossing_own_delete_or_rekey
